@@ -1,5 +1,5 @@
 import DeepModel.Driver.GuardRun
-import DeepModel.Model.Lifecycle
+import DeepModel.Model.LifecyclePlan
 open Lean Proto GuardRun Lifecycle
 
 def hookOf (j : Json) : Except String Hook :=
@@ -41,17 +41,33 @@ def stateJson (d : Deep) (raised : Bool) : Json :=
               ("tasks_open", toJson d.tasksOpen), ("shut_calls", toJson d.shutCalls), ("armed", toJson (armed d)),
               ("raised", toJson raised)]
 
-/-- one JSON op: `noop` leaves the state, `shutdown` may first declare the sends that are pending ("tasks") -/
+def primOf : String → Except String Prim
+  | "load_plugins" => pure .loadPlugins
+  | "resource_create" => pure .resourceCreate
+  | "th_start" => pure .thStart
+  | "grpc_start" => pure .grpcStart
+  | "poll_start" => pure .pollStart
+  | s => throw s!"unknown start step {s}"
+
+/-- one JSON op: `noop` leaves the state, `shutdown` may first declare the sends that are pending ("tasks").
+    `start` / `shutdown` run the TRANSLATED method bodies (`startF` / `shutdownX`); a `start` may name the service call
+    that raises ("fails"). -/
 def applyOp (d : Deep) (j : Json) : Except String (Deep × Bool) := do
   match (← getStr j "op") with
   | "noop" => pure (d, false)
+  | "start" =>
+    match (← getOptStr j "fails") with
+    | none => pure (startF noStartFaults d)
+    | some s => do
+      let p ← primOf s
+      pure (startF (fun q => q == p) d)
   | _ =>
     let op ← parseOp j
     let d := match op with
       | .shutdown _ => if d.started then { d with pending := (nats j "tasks").toOption.getD [] } else d
       | _ => d
-    let raised := match op with | .shutdown f => (shutdown f d).2 | _ => false
-    pure (step d op, raised)
+    let raised := match op with | .shutdown f => (shutdownX f d).2 | _ => false
+    pure (stepX d op, raised)
 
 def handle (j : Json) : Except String Json := do
   match (← getStr j "op") with
